@@ -30,6 +30,7 @@ import (
 // Op kinds.
 const (
 	opLogin     = "login"     // SSH login of planned session K
+	opRelogin   = "relogin"   // the same login delivered once more while session K is live and correlated (no effect expected)
 	opRec       = "rec"       // kernel LOGIN record of session K
 	opEv        = "ev"        // ordinary event of session K
 	opCD        = "cd"        // credential-disposal record of session K
@@ -232,7 +233,9 @@ func checkHistory(plan Plan, ops []HOp, res *histResult, reuse bool) []finding {
 		// 1. account the delivery
 		switch op.Kind {
 		case opLogin:
-			ss[op.K].loginAt = i
+			if ss[op.K].loginAt < 0 {
+				ss[op.K].loginAt = i
+			}
 		case opRec:
 			if ss[op.K].recAt < 0 {
 				ss[op.K].recAt = i
@@ -278,6 +281,11 @@ func checkHistory(plan Plan, ops []HOp, res *histResult, reuse bool) []finding {
 			s := &ss[k]
 			if s.recAt < 0 || s.loginAt < 0 || s.recAt > i || s.loginAt > i {
 				add(rclass(k, "C04"), "emitted-before-both-halves", fmt.Sprintf("event of op#%d (%s) emitted during op#%d although session %d has rec@%d login@%d", src, sop, i, k, s.recAt, s.loginAt))
+				if reuse && s.loginAt < 0 {
+					// no SSH login of this session has been delivered at all (the PID's
+					// earlier holder had one): C04's first clause, whatever C09 says
+					add("C04", "login-less-session-emitted", fmt.Sprintf("event of op#%d (%s) emitted during op#%d although no SSH login for session %d (pid %d) was ever delivered", src, sop, i, k, plan.Pid[k]))
+				}
 			} else if src < s.recAt {
 				add(rclass(k, "C04"), "emitted-pre-login-record-event", fmt.Sprintf("event of op#%d (%s) precedes the LOGIN record of its session but was emitted", src, sop))
 			}
@@ -397,7 +405,7 @@ func (x apiExec) run(plan Plan, ops []HOp) *histResult {
 		ts := vlib.BaseTSms + int64(tsIdx(i))
 		seq := uint32(1000 + i)
 		switch op.Kind {
-		case opLogin:
+		case opLogin, opRelogin:
 			at := time.Now().UTC() // as the sshd processor stamps it
 			if x.realClock {
 				last = nowAdvance(last)
@@ -545,7 +553,7 @@ func (rawExec) run(plan Plan, ops []HOp) (*histResult, error) {
 		ts := vlib.BaseTSms + int64(tsIdx(i))
 		seq++
 		switch op.Kind {
-		case opLogin:
+		case opLogin, opRelogin:
 			ok = sendLogin(common.RemoteUserLogin{Source: identityEvent(op.K, plan.Pid[op.K], time.Now().UTC()), PID: plan.Pid[op.K], CredUserID: fmt.Sprintf("cred%d@example.com", userIdx(op.K, plan.Pid[op.K]))})
 		case opRec:
 			ok = send(vlib.AuLogin(ts, seq, strconv.Itoa(plan.Pid[op.K]), plan.Sid[op.K]))
